@@ -39,6 +39,8 @@ DOMAINS = {
     'zone': ('int', 0, 7),
     'any': ('real', None, None),
     'cell': ('int', 0, 2),
+    'cyc': ('real', -400, 800),        # start of a cycle: the values may pass a full turn (they are not wrapped)
+    'cycraw': ('real', 0, 100000),
 }
 
 
